@@ -18,7 +18,10 @@ echo "| repair | reverted | check | recorded signature | now |" > "$tmp"; echo "
 bad=0; n=0
 for sha in ${FIX_SHAS:-$(grep "^fixed:" /verif/KNOWN_FINDINGS.txt | awk "{print \$3}" | awk "!seen[\$0]++")}; do
   subj=$(git -C /repo log -1 --format=%s "$sha" | cut -c1-70)
-  if git -C /repo show "$sha" -- src gsd-parser/src | git -C "$S/repo" apply -R 2>/dev/null; then how="cleanly"
+  # tools/reverts/<sha>.diff: a hand-made patch that takes back the BEHAVIOUR of a repair whose plain revert
+  # does not build any more (a later hook reads a field the repair introduced)
+  if [ -f "/verif/tools/reverts/$sha.diff" ] && git -C "$S/repo" apply "/verif/tools/reverts/$sha.diff" 2>/dev/null; then how="behaviour only (tools/reverts/$sha.diff)"
+  elif git -C /repo show "$sha" -- src gsd-parser/src | git -C "$S/repo" apply -R 2>/dev/null; then how="cleanly"
   elif git -C /repo show "$sha" -- src gsd-parser/src | git -C "$S/repo" apply -R --3way 2>/dev/null && ! git -C "$S/repo" diff --name-only --diff-filter=U | grep -q .; then how="3-way"
   else
     git -C "$S/repo" reset -q --hard HEAD
